@@ -253,9 +253,10 @@ def resume_atomicity(ck, P):
                             if a[0] != "is":
                                 continue
                             vs = set(a[2])
-                            if (a[3] and vs == {"Ok"}) or (not a[3] and vs == {"Err"}):
+                            # (`pull_byte()?` in an extracted helper tests the ControlFlow that Try::branch makes of the Result)
+                            if (a[3] and vs in ({"Ok"}, {"Continue"})) or (not a[3] and vs in ({"Err"}, {"Break"})):
                                 checkpoints.add(tb)
-                            elif (a[3] and vs == {"Err"}) or (not a[3] and vs == {"Ok"}):
+                            elif (a[3] and vs in ({"Err"}, {"Break"})) or (not a[3] and vs in ({"Ok"}, {"Continue"})):
                                 exits.add(tb)
                     break
                 su = fn.succ[cur]
